@@ -28,6 +28,8 @@ type pconn struct {
 	trigAt         int64 // absolute offset in that direction at which to fault
 	trigKind       faultKind
 	stalled        bool
+	stallS2C       bool // swallow server->client bytes only (the client "stops reading"), client->server keeps flowing
+	holdOpen       bool // when the client side reaches EOF keep the server side open (a peer that said goodbye but lingers)
 	dead           bool
 	faulted        chan struct{}
 }
@@ -100,6 +102,12 @@ func (pc *pconn) pump(src, dst net.Conn, dir int) {
 					b = nil // swallow
 					break
 				}
+				if pc.stallS2C && dir == 1 {
+					pc.mu.Unlock()
+					// do not even read on: let the server's socket buffer fill up
+					time.Sleep(5 * time.Millisecond)
+					continue
+				}
 				cnt := &pc.s2c
 				if dir == 2 {
 					cnt = &pc.c2s
@@ -140,6 +148,12 @@ func (pc *pconn) pump(src, dst net.Conn, dir int) {
 			}
 		}
 		if err != nil {
+			pc.mu.Lock()
+			hold := pc.holdOpen && dir == 2
+			pc.mu.Unlock()
+			if hold {
+				return
+			}
 			pc.kill(faultFIN)
 			return
 		}
